@@ -594,6 +594,53 @@ pub fn dispatch(f: &[&str]) -> String {
                 _ => "bad-kind".into(),
             }
         }
+        "builder.fields" => {
+            // builder.fields <ops ;-separated> <raw|single|multi>: the names of the header section of the built message, in order
+            use lettre::message::header::{Header, HeaderName, HeaderValue};
+            use lettre::message::{Mailbox, Message, MultiPart, SinglePart};
+            macro_rules! own { ($t:ident, $n:expr) => {
+                #[derive(Clone)] struct $t;
+                impl Header for $t {
+                    fn name() -> HeaderName { HeaderName::new_from_ascii_str($n) }
+                    fn parse(_: &str) -> Result<Self, Box<dyn std::error::Error + Send + Sync>> { Ok($t) }
+                    fn display(&self) -> HeaderValue { HeaderValue::new(Self::name(), "v".to_string()) }
+                }
+            } }
+            own!(H1, "X-One"); own!(H2, "x-one"); own!(H3, "X-Two"); own!(H4, "SUBJECT"); own!(H5, "mime-version"); own!(H6, "Content-Transfer-Encoding");
+            let mb = |s: &str| -> Mailbox { s.parse().unwrap() };
+            let mut b = Message::builder();
+            let mut n = 0;
+            for op in f[1].split(';').filter(|x| !x.is_empty()) {
+                n += 1;
+                b = match op {
+                    "from" => b.from(mb(&format!("f{n}@x.example"))), "to" => b.to(mb(&format!("t{n}@x.example"))), "cc" => b.cc(mb(&format!("c{n}@x.example"))),
+                    "bcc" => b.bcc(mb(&format!("b{n}@x.example"))), "reply_to" => b.reply_to(mb(&format!("r{n}@x.example"))), "sender" => b.sender(mb(&format!("s{n}@x.example"))),
+                    "date" => b.date(std::time::UNIX_EPOCH + std::time::Duration::from_secs(1_700_000_000 + n)), "subject" => b.subject(format!("subject {n}")),
+                    "mimeversion" => b.header(lettre::message::header::MIME_VERSION_1_0),
+                    "keepbcc" => b.keep_bcc(),
+                    "envelope" => b.envelope(lettre::address::Envelope::new(Some("e@x.example".parse().unwrap()), vec!["d@y.example".parse().unwrap()]).unwrap()),
+                    x if x.starts_with("hdr:") => match utf8(unhex(&x[4..])).as_deref() {
+                        Some("X-One") => b.header(H1), Some("x-one") => b.header(H2), Some("X-Two") => b.header(H3), Some("SUBJECT") => b.header(H4),
+                        Some("mime-version") => b.header(H5), Some("Content-Transfer-Encoding") => b.header(H6), _ => return "bad-op".into(),
+                    },
+                    _ => return "bad-op".into(),
+                };
+            }
+            let r = match f[2] {
+                "raw" => b.body(String::from("x")),
+                "single" => b.singlepart(SinglePart::plain(String::from("x"))),
+                _ => b.multipart(MultiPart::mixed().singlepart(SinglePart::plain(String::from("x")))),
+            };
+            match r {
+                Ok(msg) => {
+                    let text = String::from_utf8_lossy(&msg.formatted()).to_string();
+                    let head = text.split("\r\n\r\n").next().unwrap_or("").to_string();
+                    let names: Vec<String> = head.split("\r\n").filter(|l| !l.starts_with(' ') && !l.starts_with('\t')).map(|l| l.split(':').next().unwrap_or("").to_string()).collect();
+                    format!("ok\t{}", names.join(","))
+                }
+                Err(e) => format!("err\t{:?}", e),
+            }
+        }
         "builder.ops" => {
             use lettre::message::{Mailbox, Message};
             // the three ways to a builder (an optional first op ctor,new / ctor,default chooses; Message::builder() otherwise)
